@@ -335,3 +335,14 @@ func Op(t *rapid.T, withDiscovery bool) string {
 		}
 	}
 }
+
+// DeviceTZ draws a controller time zone for a configured controller (hook.DeviceCfg.TZ). The zone is configuration
+// that none of the listed properties lets influence wire bytes, routing or decoded values.
+func DeviceTZ(t *rapid.T, label string) string {
+	return rapid.SampledFrom([]string{"", "", "nil", "Local", "UTC", "+03:00", "-08:00", "+05:45", "-03:30", "+13:00", "Asia/Tokyo", "America/New_York", "Europe/London", "Pacific/Apia"}).Draw(t, label)
+}
+
+// Debug draws the client's debug flag (true in about a quarter of the cases; stdout is muted).
+func Debug(t *rapid.T, label string) bool {
+	return rapid.IntRange(0, 3).Draw(t, label) == 0
+}
